@@ -3,6 +3,7 @@
 from __future__ import annotations
 
 import ast
+import re
 
 from sa.escape import Escapes
 from sa.report import AnalysisError
@@ -392,6 +393,42 @@ def _cast_belief_rule(prog: Program, res: Result) -> None:
                     what = f"{fi.qualname}: cast({norm(c.args[0])}, <context data>)"
                     res.fail("C02.R6", file=fi.file, line=c.lineno, qualname=fi.qualname, construct=f"cast({norm(c.args[0])}, {norm(c.args[1])[:60]})", message=f"{fi.qualname} casts a value read from the render context to {norm(c.args[0])} without testing it: data of another shape under that name (e.g. `translations=[…]`) makes the following method call raise a bare AttributeError", what=what)
     res.ok("C02.R6", "liquid2/**", f"{n_cast} cast() calls inspected; none applied to render-context data", "positive example matched once")
+    # the other half: a function that promises a liquid2 class / protocol (`-> T`) and returns a value read from the render context
+    # tests it with isinstance(v, T) and leaves (raise / return something else) when the test fails
+    n_ret = 0
+    for fi in sorted(prog.all_functions(), key=lambda f: (f.file, f.node.lineno)):
+        ann = fi.node.returns
+        if ann is None:
+            continue
+        tname = norm(ann).strip("'\"")
+        tcls = prog.resolve(fi.module, tname) if re.fullmatch(r"[A-Za-z_][A-Za-z0-9_.]*", tname) else None
+        from sa.srcmodel import ClassInfo as _CI
+
+        if not isinstance(tcls, _CI):
+            continue
+        from_ctx: set[str] = set()
+        for a in ast.walk(fi.node):
+            if isinstance(a, ast.Assign) and len(a.targets) == 1 and isinstance(a.targets[0], ast.Name) and isinstance(a.value, ast.Call) and isinstance(a.value.func, ast.Attribute) and a.value.func.attr in ("get", "resolve") and any(isinstance(x, ast.Name) and x.id in ("context", "ctx", "render_context") for x in ast.walk(a.value.func.value)):
+                from_ctx.add(a.targets[0].id)
+        rets = [r for r in ast.walk(fi.node) if isinstance(r, ast.Return) and isinstance(r.value, ast.Name) and r.value.id in from_ctx]
+        for r in rets:
+            n_ret += 1
+            v = r.value.id  # type: ignore[union-attr]
+            what = f"{fi.qualname} returns `{v}` (read from the render context) as {tname} only after isinstance({v}, {tname})"
+            guarded = False
+            for t in ast.walk(fi.node):
+                if isinstance(t, ast.If):
+                    core = t.test.operand if isinstance(t.test, ast.UnaryOp) and isinstance(t.test.op, ast.Not) else t.test
+                    neg = core is not t.test
+                    if norm(core) == f"isinstance({v}, {tname})":
+                        leave = t.body if neg else t.orelse
+                        if leave and isinstance(leave[-1], (ast.Raise, ast.Return)) and not any(x is r for b in leave for x in ast.walk(b)):
+                            guarded = True
+            if guarded:
+                res.ok("C02.R6", f"{fi.file}:{r.lineno} {fi.qualname}", what, "narrowed, the failing branch leaves")
+            else:
+                res.fail("C02.R6", file=fi.file, line=r.lineno, qualname=fi.qualname, construct=f"{fi.qualname} returns context data as {tname} without an isinstance test", message=f"{fi.qualname} hands back `{v}`, a value read from the render context, as {tname} without testing it (or carries on when the test fails): data of another shape under that name makes the caller's method call raise a bare AttributeError", what=what)
+    res.floor("C02.R6", "context values returned under a liquid2 type", n_ret, 2)
 
 
 def _all_sites(E: Escapes, fi):  # noqa: ANN001, ANN202
